@@ -98,7 +98,7 @@ def specs(rng, tier, wid, nw, env):
             yield ('z', an, bn, m, rng.randint(0, 3), rng.getrandbits(48))
             if an <= 700 or tier != 'quick':
                 yield ('n', an, bn, m, rng.getrandbits(48))
-    N = 2500 if tier == 'quick' else 60000
+    N = 8000 if tier == 'quick' else 150000
     for i in range(N):
         c = rng.random()
         if c < 0.45: yield ('z', rng.randint(1, 8), rng.randint(1, 8), rng.choice(MODES), rng.randint(0, 3), rng.getrandbits(48))
